@@ -1,5 +1,7 @@
 package main
 
+import "strings"
+
 const c04Replay = `package mocker
 
 import "testing"
@@ -26,12 +28,48 @@ func TestGovcReplay(t *testing.T) {
 }
 `
 
+const c04MatchesReplay = `package mocker
+
+import (
+	"reflect"
+	"testing"
+
+	"github.com/tencent/goom/arg"
+)
+
+func govcSimple(a int) int { return a }
+
+// public-API history: a default, then Matches with two pairs, then calls that match neither pair
+func TestGovcReplay(t *testing.T) {
+	when := NewWhen(reflect.TypeOf(govcSimple))
+	when.Return(-1).Matches(arg.Pair{Args: 1, Return: 5}, arg.Pair{Args: 2, Return: 6})
+	for k := 0; k < 4; k++ {
+		if got := when.Eval(9)[0]; got != -1 {
+			t.Errorf("unmatched call #%d returned %v, want the configured default -1", k+1, got)
+		}
+	}
+	bare := NewWhen(reflect.TypeOf(govcSimple))
+	bare.Matches(arg.Pair{Args: 1, Return: 5})
+	func() {
+		defer func() {
+			if recover() == nil {
+				t.Errorf("a call matching no condition returned a value although no default was configured")
+			}
+		}()
+		bare.Eval(9)
+	}()
+}
+`
+
 func init() {
 	registerProperty(&PropertyConfig{
 		ID:      "C04",
 		Explain: "matcher contracts over the reflect model: DefaultMatcher.Match never panics on arguments as reflect.MakeFunc delivers them (receiver dropped, only the variadic tail expanded) and accepts exactly when every expression accepts its positional argument; When.invoke serves the first matching condition, else the default, else panics",
 		Trusted: []string{"reflect model", "arg.Expr / Matcher implementations honour their interface contracts (Eval/Match are pure predicates)"},
 		Replay: func(o *Options, g *groupResult, model map[string]string) (string, string, bool) {
+			if strings.Contains(g.name, ".Matches#") {
+				return ".", c04MatchesReplay, true
+			}
 			return ".", c04Replay, true
 		},
 	})
